@@ -1,12 +1,14 @@
 SPECIFICATION Spec
-CONSTANTS N = 86400 MaxSteps = 4 InvertStartBySecTruncation = FALSE CaptureAtJoinEpoch = FALSE MaxJoinSteps = 3
+CONSTANTS N = 86400 MaxSteps = 4 InvertStartBySecTruncation = FALSE CaptureAtJoinEpoch = FALSE CacheIgnoresEpoch = FALSE MaxJoinSteps = 3
 CONSTANT Lons <- LonsAll
 CONSTANT Theta0s <- ThetasAll
 CONSTANT StartSecs <- Secs60
+CONSTANT PriorAngles <- OnePrior
 CONSTANT Plans <- NoPlan
 CONSTANT Dts <- DtsQuick
 INVARIANT SiteEpochAgrees
 INVARIANT StartInversionExact
+INVARIANT ConvertIgnoresHistory
 INVARIANT SiteFixed
 INVARIANT VelIsRotation
 INVARIANT Emit
